@@ -117,6 +117,38 @@ CHECKS["C14"] = dict(
     technique="Coq invariant proof + model/implementation correspondence + trace monitor",
     ref="5/C14")
 
+CHECKS["C15"] = dict(
+    text="Machine-checked meta-theorems (Coq) for a deeply embedded codec format language - round trip with exact "
+         "consumption, every strict prefix is an error (never a value, never a panic), concatenated messages decode to "
+         "the same sequence - proved once by induction on formats and instantiated by reflection (vm_compute) on the "
+         "writer/reader format of every Serialize/Deserialize pair, which the translator re-reads from "
+         "pkg/client/messages.go on every run (37 payloads, Message framing, TxState, MerkleProof, fee quotes, the "
+         "stored client.Tx record); type code / payload / name tables proved one-to-one. Correspondence run: real "
+         "Serialize/Deserialize on generated values, all strict prefixes, mutations and concatenations, compared with "
+         "the model inside Coq (bytes, outcome class, bytes consumed, decoded value).",
+    note="Trusted: Coq kernel, the translator for the recognised Go patterns (unrecognised statements fail closed; "
+         "cross-checked by the correspondence run), hand-written formats of wire.MsgTx/TxOut/OutPoint, opaque "
+         "dependency codecs (public key, signature, merkle_proof, BSOR) as oracles whose assumed prefix behaviour is an "
+         "explicit premise and is measured on the real code.",
+    technique="Coq reflection proof over translated codec terms + model/implementation correspondence",
+    ref="5/C15")
+
+CHECKS["C20"] = dict(
+    text="Machine-checked meta-theorem (Coq): a reader format that is `bounded` (no allocation from an unchecked "
+         "count, nothing untranslated) never panics and allocates at most A*|input|+B on ALL byte strings; the "
+         "obligation `Forall bounded` over every reader format regenerated from pkg/client/messages.go is discharged by "
+         "vm_compute, and for every reader that is not bounded a hostile input shorter than 100 bytes is computed from "
+         "the format and proved to panic / reserve >= 2^32 bytes in the model. The same inputs, valid encodings with "
+         "every count/length field overwritten by 2^63, 2^32, 2^64-1, 0xfffffffe, random bytes behind every type "
+         "code and hostile stored records are decoded by the real code in a memory-limited child process; a panic, "
+         "kill or disproportionate allocation is reported once per decoder site.",
+    note="Trusted: Coq kernel, translator (allocation annotations), allocation model (makeslice limit 2^48, per-make "
+         "accounting), dependency decoders as oracles assumed not to panic (tested by the hostile run, contradictions "
+         "reported under dep:* keys), wire.MsgTx idealised in the final obligation (its real decoder is proved "
+         "unbounded). Stored-record parsers of internal/storage are covered by the hostile run only, not translated.",
+    technique="Coq reflection proof over translated codec terms + hostile-input run in a memory-limited child",
+    ref="5/C20")
+
 NOT_APPLICABLE = {}
 
 
